@@ -326,6 +326,34 @@ def case_game(spec, cov, out):
                 return
 
 
+def case_web404(spec, cov, out):
+    """directed: four clients whose browsers fetch a database-backed, a static, a missing and a database-backed page; every agent
+    carries a sticky and a non-sticky web-server-404-penalty; steps mix the answers of one step (200+404, 500 alone, 200+500, ...)
+    after the sticky memory holds a non-zero value, with idle steps in between."""
+    rnd = random.Random(spec["seed"])
+    names = [f"ag{i}" for i in range(4)]
+    comp = lambda sticky, w: {"type": "web-server-404-penalty", "weight": w,  # noqa: E731
+                              "options": {"node_hostname": "web", "service_name": "web-server", "sticky": sticky}}
+    rcfgs = {nm: [comp(True, 0.5), comp(False, 0.25)] for nm in names}
+    rcfgs["ag1"].append({"type": "shared-reward", "weight": 1.0, "options": {"agent_name": "ag0"}})
+    deps = {nm: [] for nm in names}
+    deps["ag1"] = ["ag0"]
+    cfg, _ = build_cfg(names, deps, rnd, reward_cfgs=rcfgs)
+    B = 1  # index of 'execute web-browser' in client_actions
+    stop_db, start_db, corrupt, restore = 3, 4, 5, 6
+    idle = {**{nm: 0 for nm in names}, "admin": 0}
+    def step(**kw):
+        return {**idle, **kw}
+    script = [step(ag1=B), step(), step(ag1=B, ag2=B), step(), step(ag0=B), step(ag0=B, ag2=B), step(admin=stop_db), step(ag0=B), step(),
+              step(ag1=B), step(ag0=B, ag1=B), step(ag0=B, ag2=B), step(admin=start_db), step(ag3=B), step(admin=corrupt), step(ag0=B, ag1=B), step(),
+              step(ag2=B), step(ag1=B, ag2=B, ag0=B, ag3=B), step(admin=restore), step(ag0=B), step(ag1=B, ag2=B)]
+    for _ in range(spec.get("extra", 20)):
+        script.append(step(**{nm: (B if rnd.random() < 0.5 else 0) for nm in names}) if rnd.random() < 0.75
+                      else step(admin=rnd.choice([stop_db, start_db, corrupt, restore])))
+    run_game(cfg, script, cov, out, {"seed": spec["seed"], "rewards": "sticky+non-sticky web-server-404-penalty per agent"}, "web404")
+    cov.inc("games")
+
+
 def case_load_graphs(spec, cov, out):
     """sharing graphs through the real loader: RuntimeError iff cyclic; acyclic ones are stepped and checked."""
     from primaite.game.game import PrimaiteGame
@@ -394,7 +422,7 @@ def case_uc2(spec, cov, out):
         probes.uninstall_all()
 
 
-RUN = {"graphs": case_graphs, "game": case_game, "load": case_load_graphs, "uc2": case_uc2}
+RUN = {"graphs": case_graphs, "game": case_game, "load": case_load_graphs, "uc2": case_uc2, "web404": case_web404}
 
 
 class Check:
@@ -428,6 +456,8 @@ class Check:
                           "steps": 30 if tier == "quick" else 64, "perms": 3 if tier == "quick" else 8})
         for s in range(4 if tier == "quick" else 16):
             specs.append({"name": f"load-{seed * 1000 + s}", "kind": "load", "seed": seed * 1000 + s, "n": 12 if tier == "quick" else 40})
+        for s in range(2 if tier == "quick" else 8):
+            specs.append({"name": f"web404-{seed * 1000 + s}", "kind": "web404", "seed": seed * 1000 + s, "extra": 20 if tier == "quick" else 80})
         for s in range(2 if tier == "quick" else 6):
             specs.append({"name": f"uc2-{seed * 1000 + s}", "kind": "uc2", "seed": seed * 1000 + s, "episodes": 2,
                           "steps": 64 if tier == "quick" else 128})
